@@ -126,3 +126,16 @@ package server
 //@ effect[C30:body-bounded-only-by-the-maximum-entity-size] every returns() if !result
 //@     needs before http.MaxBytesReader(_, $b, $n) -> ($res)
 //@     where $b == old(r.Body) && $n == storage.MaxEntitySize+1 && r.Body == $res
+
+// C31. DeleteObjects: the storage is called only after the request as a whole was allowed, and every entry is judged by
+// the per-entry authorization individually - each round of the authorization loop (the second loop of the handler) that
+// goes on to the next entry has consulted the authorizer for this entry, and the bulk delete comes after all of them.
+// (Which entries reach the storage is held in a slice of a function-local type, which contract expressions cannot
+// name: that the denied entries are exactly the ones left out is not stated here.)
+//@ func (*Server).deleteObjectsHandler
+//@ mode effects
+//@ effect[C31:every-entry-is-judged-individually] every loop_continues(1)
+//@     needs before s.authorizeDeleteObjectEntry(_, _, _) -> ($a, $e) where $e == nil
+//@ effect[C31:bulk-delete-after-the-request-was-allowed] every s.storage.DeleteObjects(_, $b, _)
+//@     needs before s.authorizeRequest(_, $op, _, _, _, _) -> ($stop) where !$stop && $op == authorization.OperationDeleteObjects && $b == bucketName
+//@ effect[C31:no-entry-judged-after-the-delete] every s.authorizeDeleteObjectEntry(__) forbids before s.storage.DeleteObjects(__)
